@@ -9,6 +9,13 @@ open Uflow.Props.C01Sys
 #print axioms C01_sys_in_order
 #print axioms C02_sys_no_skip
 #print axioms C02_sys_window_waits_for_reliable
+#print axioms C02_sys_reach_delivery
+#print axioms C02_sys_reliable_taken_before_passed
+#print axioms C02_sys_no_skip_full
+#print axioms C02_sys_reach_alloc
+#print axioms C01_sys_delivered_payload
+#print axioms C02_sys_reliable_delivered_before_passed
+#print axioms C02_sys_refused_witness
 #print axioms C01_sys_fresh_of_recent
 #print axioms C01_sys_fresh_automatic_noack
 #print axioms C01_sys_example
